@@ -456,6 +456,42 @@ def t2(ctx):
     return [r, r3, r4]
 
 
+def _assign_loop_form(t):
+    """macro body (blanks removed) of the form `letmutV=None;forxin$n{..V=Some(..);..}V`: -> (V, number of assignments not directly followed by `break;` / a return)"""
+    import re as _re
+    m = _re.search(r'letmut(\w+)(?::[^=;]+)?=None;forxin\$n\{', t)
+    if not m:
+        return None
+    v = m.group(1)
+    if not _re.search(r'\}%s\}*\)*;?\}*$' % _re.escape(v), t) and not t.rstrip('})').endswith(v):
+        return None
+    missing = 0
+    i = 0
+    pat = v + '=Some('
+    found = False
+    while True:
+        i = t.find(pat, i)
+        if i < 0:
+            break
+        found = True
+        depth, j = 0, i + len(pat) - 1
+        while j < len(t):
+            if t[j] == '(':
+                depth += 1
+            elif t[j] == ')':
+                depth -= 1
+                if depth == 0:
+                    break
+            j += 1
+        rest = t[j + 1:j + 12]
+        if not (rest.startswith(';break;') or rest.startswith(';break}')):
+            missing += 1
+        i = j
+    if not found:
+        return None
+    return v, missing
+
+
 def run(ctx):
     return [t1(ctx)] + t2(ctx) + [t4(ctx)]
 
@@ -640,6 +676,13 @@ def t4(ctx):
                    '%s! searches the nodes once PER requested kind (`%s` inside the `$(..)*` repetition) instead of testing every kind at each node of one pass: the '
                    'result is the first-listed kind that occurs, not the first node in iteration order (and a shared iterator is used up by the first search)'
                    % (mc['name'], per_kind_search[0][:50]))
+        elif _assign_loop_form(t) is not None:
+            # second form: `let mut ret = None; for x in $n { .. ret = Some(..); break; .. } ret` — every assignment must leave the loop at once
+            v_, missing_ = _assign_loop_form(t)
+            if missing_:
+                r.fail('sv-parser:%s:first-match' % mc['name'], 'sv-parser/src/lib.rs:%s' % mc['l'],
+                       '%s! stores a match in `%s` and goes on iterating (no `break` after `%s = Some(..)`): every later match overwrites it, so the LAST node of the kind in iteration '
+                       'order is returned, not the first' % (mc['name'], v_, v_))
         elif not ('forxin$n{' in t and 'returnSome(' in t and 'None' in t and t.index('returnSome(') < t.rindex('None')):
             r.undecided('sv-parser:%s:first-match' % mc['name'], 'sv-parser/src/lib.rs:%s' % mc['l'], '%s!: body not in the recognised for/return form' % mc['name'])
     return r
